@@ -1,0 +1,15 @@
+//go:build verif
+
+// Contracts for contract-based verification (/verif). Comment-only: with or without the
+// build tag "verif" this file adds nothing to the compiled package.
+
+package main
+
+// C16: the front end forwards the process environment split at the first '=' only
+//@ event SplitAtFirstEquals = call strings.SplitN when a1 == "=" && a2 == 2
+//@ event SplitOtherwise = call strings.SplitN when !(a1 == "=" && a2 == 2)
+//@ event FrontendSplit = call strings.Split
+
+//@ func InitHandler
+//@   ensures [split-at-first-equals-only] delta(SplitOtherwise) == 0 && delta(FrontendSplit) == 0
+//@   loop range os.Environ(): invariant delta(SplitOtherwise) == 0 && delta(FrontendSplit) == 0
